@@ -1,7 +1,7 @@
 (* C46 Resource counts report what the circuit contains.
    Statements only; every proof is `exact <lemma>` from Disc/ResourceCountProofs.v.
    Model: Disc/ResourceCountModel.v (circuit = list of gates + measurements; summaries as tape.specs reports them). *)
-From Coq Require Import List ZArith Bool.
+From Coq Require Import List ZArith Bool Lia.
 From PLV Require Import Disc.ResourceCountModel Disc.ResourceCountProofs.
 Import ListNotations.
 Open Scope Z_scope.
@@ -189,5 +189,5 @@ Example resources_hyps_satisfiable :
   NoDup (ekeys (egt x)) /\ nonneg_counts (egt x) /\ egt (rep_series x 2) = [(0, 6); (5, 3)] /\ el (rep_parallel x 2) = 9.
 Proof.
   cbn zeta. split; [cbn; repeat constructor; cbn; intuition congruence|]. split; [|split; reflexivity].
-  intros k. unfold eget; cbn. destruct (0 =? k); [discriminate|]. destruct (5 =? k); discriminate.
+  intros k. unfold eget. cbn [egt efind]. destruct (0 =? k); [lia|]. destruct (5 =? k); lia.
 Qed.
